@@ -35,7 +35,7 @@ def check(ctx):
     core.check_properties_file(ctx, "Properties/C07.v", THEOREMS, {"C07_sqrt_scale_in_C": core.AX_REALS})
     core.check_properties_file(ctx, "Properties/C07Recentre.v", THEOREMS_RC + EXAMPLES_RC,
                                dict({n: core.AX_NONE for n in THEOREMS_RC}, **{n: core.AX_REALS for n in EXAMPLES_RC}))
-    core.check_properties_file(ctx, "Properties/C07MirrorSingle.v", THEOREMS_SINGLE, core.AX_REALS, coqchk=False)
+    core.check_properties_file(ctx, "Properties/C07MirrorSingle.v", THEOREMS_SINGLE, core.AX_REALS)
     solverslices.run(ctx)
     cases = gen(ctx)
     recs = sc.correspond(ctx, cases, "c07_")
@@ -92,16 +92,20 @@ def probe_recentred(S, base, rng, fields, rel, tol, force=None):
         rc["meas_pt"], rc["analytic"], halo2 = tuple(force["meas_pt"]), bool(force["analytic"]), force.get("halo2", halo2)
     xm, ym = rc["meas_pt"]
     forced = dict(meas_pt=list(rc["meas_pt"]), analytic=rc["analytic"], halo2=halo2)
-    # (tag, request, filter applied to both sides, axes whose mirror is compared)
-    variants = [("", rc, lambda F: strip_nyquist(F, nlx, nly), "xy")]
+    # (tag, request, filter applied to both sides, axes whose mirror is compared, tolerance)
+    variants = [("", rc, lambda F: strip_nyquist(F, nlx, nly), "xy", tol),
+                # single storage (C07_mirror_single_bound / _y_): a bound, not an equality — 2 eps * sum |amplitudes|;
+                # checked with the storage tolerance the C02 oracle uses for single precision
+                ("-single", dict(rc, precision="single"), lambda F: strip_nyquist(F, nlx, nly), "xy", 1e-4)]
     odd_axes = ("x" if nx % 2 == 1 else "") + ("y" if ny % 2 == 1 else "")
     if odd_axes:
         # odd padded size along an axis and a mode request above the padded sizes: the clamp gives an odd
         # count on that axis, nothing is unpaired there (C07_mirror_*_recentred_odd) — any halo
-        variants.append(("-halo-odd", dict(rc, halo=halo2, modes=(64, 64)), lambda F: F, odd_axes))
-    for tag, r, flt, axes in variants:
+        variants.append(("-halo-odd", dict(rc, halo=halo2, modes=(64, 64)), lambda F: F, odd_axes, tol))
+    for tag, r, flt, axes, vtol in variants:
         c0, f0 = fields(r)
-        bg = r["bg"]
+        # single storage rounds the stored concentration relative to |C| ~ |bg|: compare C itself there
+        bg = r["bg"] if r["precision"] == "double" else 0.0
         # deviations are measured against the magnitude of the UNFILTERED fields: after removing the Nyquist
         # components of a (2, 2)-mode request only the mean mode is left, which is rounding noise for a zero-mean source
         sf, scn = max(float(np.abs(f0).max()), 1e-300), max(float(np.abs(c0 - bg).max()), 1e-300)
@@ -112,7 +116,7 @@ def probe_recentred(S, base, rng, fields, rel, tol, force=None):
             mx = dict(r, q0=r["q0"][:, ::-1].copy(), profiles=(-u, v, Kx, Ky, Kz), meas_pt=(Lx - xm, ym))
             c1, f1 = fields(mx)
             d = max(rel(flt(f1), flt(f0[:, :, ::-1]), sf), rel(flt(c1 - bg), flt(c0[:, :, ::-1] - bg), scn))
-            if d > tol:
+            if d > vtol:
                 out.append(("mirror-x-recentred" + tag,
                             "re-centred dispersion request (meas_pt %r, halo %r, modes %r; mirrored request at (xmx - xm, ym) = %r): mirrored problem differs from the mirrored fields by %.3g beyond the Nyquist components"
                             % (r["meas_pt"], r["halo"], r["modes"], mx["meas_pt"], d), forced))
@@ -120,7 +124,7 @@ def probe_recentred(S, base, rng, fields, rel, tol, force=None):
             my = dict(r, q0=r["q0"][::-1, :].copy(), profiles=(u, -v, Kx, Ky, Kz), meas_pt=(xm, Ly - ym))
             c2, f2 = fields(my)
             d = max(rel(flt(f2), flt(f0[:, ::-1, :]), sf), rel(flt(c2 - bg), flt(c0[:, ::-1, :] - bg), scn))
-            if d > tol:
+            if d > vtol:
                 out.append(("mirror-y-recentred" + tag,
                             "re-centred dispersion request (meas_pt %r, halo %r, modes %r; mirrored request at (xm, ymx - ym) = %r): mirrored problem differs by %.3g beyond the Nyquist components"
                             % (r["meas_pt"], r["halo"], r["modes"], my["meas_pt"], d), forced))
@@ -145,7 +149,7 @@ def probe(S, case, rng, force=None):
     def fields(c):
         _, cc, ff = sc.call(S, c)
         n_y, n_x = c["q0"].shape
-        return np.asarray(cc, float).reshape(len(lv), n_y, n_x), np.asarray(ff, float).reshape(len(lv), n_y, n_x)
+        return np.asarray(cc, float).reshape(len(lv), n_y, n_x), np.asarray(ff, float).reshape(len(lv), n_y, n_x)  # float64 copies (also of float32 results)
 
     def rel(a, b):
         return float(np.abs(a - b).max() / max(np.abs(b).max(), 1e-300))
@@ -175,6 +179,27 @@ def probe(S, case, rng, force=None):
             rels(strip_nyquist(c2 - base["bg"], nlx, nly), strip_nyquist(c0[:, ::-1, :] - base["bg"], nlx, nly), scn))
     if d > tol:
         out.append(("mirror-y", "mirrored problem differs by %.3g beyond the Nyquist components" % d))
+    # the same with a halo that is NOT a whole number of cells, along every axis with an odd padded size: a mode request
+    # above the padded sizes is clamped to an odd count there, no column/row is unpaired and the returned arrays
+    # themselves are mirrored (C07_mirror_x_odd / _y_odd hold for every halo)
+    odd_axes = ("x" if nx % 2 == 1 else "") + ("y" if ny % 2 == 1 else "")
+    if odd_axes:
+        hb = dict(base, halo=1.3 * max(dx, dy), modes=(64, 64))
+        ch, fh = fields(hb)
+        sfh, sch = max(float(np.abs(fh).max()), 1e-300), max(float(np.abs(ch - hb["bg"]).max()), 1e-300)
+        for ax in odd_axes:
+            flip = (lambda F: F[:, :, ::-1]) if ax == "x" else (lambda F: F[:, ::-1, :])
+            hm = dict(hb, q0=(hb["q0"][:, ::-1] if ax == "x" else hb["q0"][::-1, :]).copy(),
+                      profiles=(-u, v, Kx, Ky, Kz) if ax == "x" else (u, -v, Kx, Ky, Kz))
+            if hb["footprint"]:
+                xm0, ym0 = hb["meas_pt"]
+                hm["meas_pt"] = ((nx - 1) * dx - xm0, ym0) if ax == "x" else (xm0, (ny - 1) * dy - ym0)
+            c6, f6 = fields(hm)
+            d = max(rels(f6, flip(fh), sfh), rels(c6 - hb["bg"], flip(ch) - hb["bg"], sch))
+            if d > tol:
+                out.append(("mirror-%s-halo-odd" % ax,
+                            "halo %r (not a whole number of cells), odd clamped mode count: mirrored problem (meas_pt %r -> %r) differs from the mirrored fields by %.3g"
+                            % (hb["halo"], hb["meas_pt"], hm["meas_pt"], d)))
     out += probe_recentred(S, base, rng, fields, rel, tol, force)
     # transpose
     tr = dict(base, q0=base["q0"].T.copy(), profiles=(v, u, Ky, Kx, Kz), domain=(base["domain"][1], base["domain"][0]),
